@@ -88,9 +88,21 @@ package store
 //@     invariant forall i int :: right <= i && i < len(idx.Entries) ==> dirName + "/" < string(idx.Entries[i].Path)
 //@     decreases right - left
 
+//@ pred headsDir(root) := pjoin(pjoin(root, "refs"), "heads")
+//@ pred refPath(root, name) := pjoin(headsDir(root), name)
+
 //@ func branch.write
 //@   returns err
-//@   pure
+//@   modifies fs
+//@   ensures [file] {C10,C03} err == nil ==> fs == fsWrite(old(fs), refPath(rootGoitPath, b.Name), hex(b.hash))
+//@   ensures [only] {C10,C03} sameExcept(fs, old(fs), refPath(rootGoitPath, b.Name))
+
+//@ func branch.loadHash
+//@   returns err
+//@   modifies branch.hash
+//@   ensures [parse] {C10,C19} err == nil ==> isFile(fs, refPath(rootGoitPath, b.Name)) && string(b.hash) == unhex(content(fs, refPath(rootGoitPath, b.Name))) && len(b.hash) >= 20
+//@   ensures [only] forall x *branch :: x != b ==> string(x.hash) == old(string(x.hash))
+//@   ensures [keep] err != nil ==> string(b.hash) == old(string(b.hash))
 
 //@ func Refs.IsBranchExist
 //@   returns ok
@@ -100,7 +112,10 @@ package store
 
 //@ func Refs.AddBranch
 //@   returns err
-//@   modifies Refs.Heads
+//@   modifies Refs.Heads, fs
+//@   ensures [disk] {C10,C03} err == nil ==> fs == fsWrite(old(fs), refPath(rootGoitPath, newBranchName), hex(newBranchHash))
+//@   ensures [disk-refused] {C10,C18} (exists i int :: 0 <= i && i < len(old(r.Heads)) && old(r.Heads)[i].Name == newBranchName) ==> fs == old(fs)
+//@   ensures [disk-only] {C10,C03} sameExcept(fs, old(fs), refPath(rootGoitPath, newBranchName))
 //@   requires wfRefs(r)
 //@   requires [hashlen] len(newBranchHash) >= 20
 //@   ensures [dup-refused] {C10,C18} (exists i int :: 0 <= i && i < len(old(r.Heads)) && old(r.Heads)[i].Name == newBranchName) ==> err != nil && seqEq(r.Heads, old(r.Heads))
@@ -111,7 +126,10 @@ package store
 
 //@ func Refs.RenameBranch
 //@   returns err
-//@   modifies Refs.Heads, branch.Name
+//@   modifies Refs.Heads, branch.Name, fs
+//@   ensures [disk] {C10,C03} err == nil ==> fs == fsRename(old(fs), refPath(rootGoitPath, curBranchName), refPath(rootGoitPath, newBranchName))
+//@   ensures [disk-refused] {C10,C18} (exists i int :: 0 <= i && i < len(old(r.Heads)) && old(r.Heads[i].Name) == newBranchName) || (forall i int :: 0 <= i && i < len(old(r.Heads)) ==> old(r.Heads[i].Name) != curBranchName) ==> fs == old(fs)
+//@   ensures [disk-error] {C10} err != nil ==> fs == old(fs)
 //@   requires wfRefs(r)
 //@   ensures [taken-refused] {C10,C18} (exists i int :: 0 <= i && i < len(old(r.Heads)) && old(r.Heads[i].Name) == newBranchName) ==> err != nil && seqEq(r.Heads, old(r.Heads)) && (forall i int :: 0 <= i && i < len(r.Heads) ==> r.Heads[i].Name == old(r.Heads[i].Name))
 //@   ensures [unknown-refused] {C10,C18} (forall i int :: 0 <= i && i < len(old(r.Heads)) ==> old(r.Heads[i].Name) != curBranchName) ==> err != nil && seqEq(r.Heads, old(r.Heads)) && (forall i int :: 0 <= i && i < len(r.Heads) ==> r.Heads[i].Name == old(r.Heads[i].Name))
@@ -121,7 +139,9 @@ package store
 
 //@ func Refs.DeleteBranch
 //@   returns err
-//@   modifies Refs.Heads
+//@   modifies Refs.Heads, fs, $out
+//@   ensures [disk] {C10,C03} err == nil ==> fs == fsRemove(old(fs), refPath(rootGoitPath, deleteBranchName))
+//@   ensures [disk-error] {C10,C18} err != nil ==> fs == old(fs)
 //@   requires wfRefs(r)
 //@   ensures [current-refused] {C10,C18} deleteBranchName == headBranchName ==> err != nil && seqEq(r.Heads, old(r.Heads))
 //@   ensures [unknown-refused] {C10,C18} (forall i int :: 0 <= i && i < len(old(r.Heads)) ==> old(r.Heads)[i].Name != deleteBranchName) ==> err != nil && seqEq(r.Heads, old(r.Heads))
@@ -132,7 +152,10 @@ package store
 
 //@ func Refs.UpdateBranchHash
 //@   returns err
-//@   modifies branch.hash
+//@   modifies branch.hash, fs
+//@   ensures [disk] {C10,C03,C08,C02} err == nil ==> fs == fsWrite(old(fs), refPath(rootGoitPath, branchName), hex(newHash))
+//@   ensures [disk-refused] {C10,C18} (forall i int :: 0 <= i && i < len(r.Heads) ==> r.Heads[i].Name != branchName) ==> fs == old(fs)
+//@   ensures [disk-only] {C10,C03} sameExcept(fs, old(fs), refPath(rootGoitPath, branchName))
 //@   requires wfRefs(r)
 //@   requires [hashlen] len(newHash) >= 20
 //@   ensures [unknown-refused] {C10,C18} (forall i int :: 0 <= i && i < len(r.Heads) ==> r.Heads[i].Name != branchName) ==> err != nil && (forall i int :: 0 <= i && i < len(r.Heads) ==> string(r.Heads[i].hash) == string(old(r.Heads[i].hash)))
@@ -149,7 +172,7 @@ package store
 //@     invariant forall j int :: 0 <= j && j < len(branches) ==> branches[j] != nil && string(branches[j].hash) == string(hash)
 
 //@ func Refs.ListBranches
-//@   pure
+//@   modifies $out
 //@   requires wfRefs(r)
 
 //@ pred wfReflog(r) := forall i int :: 0 <= i && i < len(r.records) ==> r.records[i] != nil && (len(r.records[i].Hash) == 0 || len(r.records[i].Hash) >= 20)
@@ -239,3 +262,34 @@ package store
 //@     invariant forall j int :: 0 <= j && j < len(gotEntries) && !tracked(idx, string(gotEntries[j].Path)) ==> exists d int :: 0 <= d && d < len(diffEntries) && diffEntries[d].Dt == diffDelete && string(diffEntries[d].Entry.Path) == string(gotEntries[j].Path)
 //@     invariant forall j int, i int :: 0 <= j && j < len(gotEntries) && 0 <= i && i < len(idx.Entries) && string(idx.Entries[i].Path) == string(gotEntries[j].Path) && string(idx.Entries[i].Hash) != string(gotEntries[j].Hash) ==> exists d int :: 0 <= d && d < len(diffEntries) && diffEntries[d].Dt == diffModified && diffEntries[d].Entry == idx.Entries[i]
 //@     invariant forall i int :: 0 <= i && i < it && (forall q string, n *object.Node :: leafIn(tree.Children, q, n) ==> q != string(idx.Entries[i].Path)) ==> exists d int :: 0 <= d && d < len(diffEntries) && diffEntries[d].Dt == diffNew && diffEntries[d].Entry == idx.Entries[i]
+
+// ---- HEAD
+
+//@ pred headPath(root) := pjoin(root, "HEAD")
+
+//@ func getHeadCommit
+//@   returns c, err
+//@   modifies $rdpos, $hashdata
+//@   ensures [result] {C10,C19} err == nil ==> c != nil && c.Object != nil
+//@   ensures [nil] err != nil ==> c == nil
+
+//@ regexp headRegexp: match(s) ==> contains(s, ": ")
+
+//@ func Head.Update
+//@   returns err
+//@   modifies Head.Reference, Head.Commit, fs, $rdpos, $hashdata
+//@   requires refs != nil && wfRefs(refs)
+//@   ensures [unknown-refused] {C10,C18} (forall i int :: 0 <= i && i < len(refs.Heads) ==> refs.Heads[i].Name != newRef) ==> err != nil && fs == old(fs) && h.Reference == old(h.Reference) && h.Commit == old(h.Commit)
+//@   ensures [file] {C10,C03} err == nil ==> fs == fsWrite(old(fs), headPath(rootGoitPath), "ref: refs/heads/" + newRef) && h.Reference == newRef && h.Commit != nil
+//@   ensures [only] {C10,C03} sameExcept(fs, old(fs), headPath(rootGoitPath))
+
+//@ func Head.Reset
+//@   returns err
+//@   modifies Head.Commit, branch.hash, fs, $rdpos, $hashdata
+//@   requires refs != nil && wfRefs(refs)
+//@   requires [hashlen] len(hash) >= 20
+//@   ensures [branch] {C08,C10} err == nil ==> (exists k int :: 0 <= k && k < len(refs.Heads) && refs.Heads[k].Name == h.Reference && string(refs.Heads[k].hash) == string(hash)) && h.Commit != nil
+//@   ensures [others] {C08,C10} forall i int :: 0 <= i && i < len(refs.Heads) && refs.Heads[i].Name != h.Reference ==> string(refs.Heads[i].hash) == old(string(refs.Heads[i].hash))
+//@   ensures [disk-only] {C08,C03} sameExcept(fs, old(fs), refPath(rootGoitPath, h.Reference))
+//@   ensures [head-same] {C08} h.Reference == old(h.Reference)
+//@   ensures [wf] wfRefs(refs)
